@@ -689,6 +689,10 @@ func spawn(bin, variant, work, solo string, args ...string) (int, string) {
 	}
 	cmd.Env = append(cmd.Env, "GOTRACEBACK=all")
 	err := cmd.Run()
+	if cmd.Process != nil {
+		// the worker may have installed its in-process CA as system root (C18)
+		os.Remove(filepath.Join(root(), ".build", "ca", fmt.Sprintf("ca-%d.pem", cmd.Process.Pid)))
+	}
 	code := 0
 	if err != nil {
 		if ee, ok := err.(*exec.ExitError); ok {
